@@ -42,6 +42,18 @@ def enabled(w, groups=GROUPS, vcap=8, ncap=4, pair_cap=4):
                     ops += [("io", g, which, "extend", (a, b)), ("io", g, which, "setslice", (0, 1), (a, b)),
                             ("io", g, which, "setslice", (0, 2), (a, b))]
                 ops += [("io", g, which, "setslice", (0, 1), ())]
+    if "io_lite" in groups:
+        for g in range(nG):
+            for which in ("inputs", "outputs"):
+                ops += [("io", g, which, "pop"), ("io", g, which, "clear"), ("io", g, which, "delitem", 0)]
+                for v in vals:
+                    ops += [("io", g, which, "append", v), ("io", g, which, "remove", v),
+                            ("io", g, which, "setitem", 0, v), ("io", g, which, "insert", 0, v)]
+    if "init_lite" in groups:
+        for g in range(nG):
+            ops += [("init", g, "clear")]
+            for v in vals:
+                ops += [("init", g, "add", v), ("init", g, "pop", "a"), ("init", g, "pop", "b")]
     if "init" in groups:
         for g in range(nG):
             ops += [("init", g, "popitem"), ("init", g, "clear")]
